@@ -4,46 +4,75 @@ package scratch
 
 import (
 	"fmt"
-	"sync/atomic"
 	"testing"
 	"time"
 
 	sio "github.com/karagenc/socket.io-go"
+	"verif/harness/gates"
 	"verif/harness/proxy"
 	"verif/harness/rig"
 )
 
-func TestPending(t *testing.T) {
-	var got int64
+func mk(t *testing.T, transports []string) (*rig.Server, *proxy.Proxy, *sio.Manager, sio.ClientSocket) {
 	srv, err := rig.NewServer(nil, func(io *sio.Server) {
 		io.Of("/").Use(func(s sio.ServerSocket, h *sio.Handshake) any {
-			s.OnEvent("x", func(n int) { fmt.Println("server got x", n); atomic.AddInt64(&got, 1) })
-			time.Sleep(100 * time.Millisecond)
+			s.OnEvent("x", func(n int) { fmt.Println("server got x", n) })
 			return nil
 		})
 	})
 	if err != nil {
 		t.Fatal(err)
 	}
-	defer srv.Close()
 	px, _ := proxy.New(srv.TS.Listener.Addr().String())
-	defer px.Close()
 	d, mx := 20*time.Millisecond, 80*time.Millisecond
 	var j float32 = 0
-	m := rig.NewManager(px.URL(), []string{"websocket"}, &sio.ManagerConfig{ReconnectionDelay: &d, ReconnectionDelayMax: &mx, RandomizationFactor: &j})
+	m := rig.NewManager(px.URL(), transports, &sio.ManagerConfig{ReconnectionDelay: &d, ReconnectionDelayMax: &mx, RandomizationFactor: &j})
 	s := m.Socket("/", nil)
-	s.OnConnect(func() { fmt.Println("client connect", time.Now().Format("05.000")) })
-	s.OnDisconnect(func(r sio.Reason) { fmt.Println("client disconnect", r) })
-	m.OnError(func(err error) { fmt.Println("mgr error", err) })
-	m.OnReconnectAttempt(func(n uint32) { fmt.Println("attempt", n) })
-	s.Emit("x", 1) // before Connect: buffered
+	t0 := time.Now()
+	s.OnConnect(func() { fmt.Println(time.Since(t0).Milliseconds(), "client connect") })
+	s.OnDisconnect(func(r sio.Reason) { fmt.Println(time.Since(t0).Milliseconds(), "client disconnect", r) })
+	m.OnError(func(err error) { fmt.Println(time.Since(t0).Milliseconds(), "mgr error", err) })
+	m.OnClose(func(r sio.Reason, err error) { fmt.Println(time.Since(t0).Milliseconds(), "mgr close", r) })
+	m.OnReconnectAttempt(func(n uint32) { fmt.Println(time.Since(t0).Milliseconds(), "attempt", n) })
+	m.OnReconnect(func(n uint32) { fmt.Println(time.Since(t0).Milliseconds(), "reconnected", n) })
+	return srv, px, m, s
+}
+
+func TestEarlyClose(t *testing.T) {
+	srv, px, m, s := mk(t, []string{"websocket"})
+	defer srv.Close()
+	defer px.Close()
+	ctl := gates.New()
+	ctl.HoldIf(func(pt string, k any) bool { return pt == "mgr.connect.dialed" })
+	ctl.Install()
+	defer gates.Uninstall()
 	s.Connect()
-	rig.WaitUntil(2*time.Second, func() bool { st, _ := sio.VerifClientSocketState(s); return st == 1 })
-	st, nb := sio.VerifClientSocketState(s)
-	fmt.Println("state", st, "buffered", nb)
-	s.Emit("x", 2) // while pending
-	time.Sleep(600 * time.Millisecond)
-	s.Emit("x", 3)
+	w := ctl.WaitFor(func(w *gates.Waiter) bool { return true }, 2*time.Second)
+	fmt.Println("held:", w != nil)
+	px.CutAll() // the connection dies between Dial returning and the state write
 	time.Sleep(300 * time.Millisecond)
-	fmt.Println("server got", atomic.LoadInt64(&got), "connected", s.Connected())
+	st, at, sk := sio.VerifManagerState(m)
+	fmt.Println("before release: state", st, at, sk)
+	ctl.HoldIf(func(pt string, k any) bool { return false })
+	ctl.OpenAll()
+	time.Sleep(1500 * time.Millisecond)
+	st, at, sk = sio.VerifManagerState(m)
+	ss, nb := sio.VerifClientSocketState(s)
+	fmt.Println("after: mgr state", st, at, sk, "socket", ss, nb, "connected", s.Connected())
+}
+
+func TestHole(t *testing.T) {
+	srv, px, m, s := mk(t, []string{"websocket"})
+	defer srv.Close()
+	defer px.Close()
+	s.Connect()
+	time.Sleep(200 * time.Millisecond)
+	px.Blackhole(1)
+	px.CutAll() // existing connection dies; new dials are swallowed
+	time.Sleep(500 * time.Millisecond)
+	px.Blackhole(0)
+	fmt.Println("hole lifted")
+	time.Sleep(3 * time.Second)
+	st, at, sk := sio.VerifManagerState(m)
+	fmt.Println("after: mgr state", st, at, sk, "connected", s.Connected())
 }
